@@ -24,7 +24,8 @@ EXTENDS Naturals, Sequences, FiniteSets, TLC, Json
 CONSTANTS Jobs,     \* names of the jobs (option sub-spaces, see JobOf) explored in this run
           Domain,   \* "clean": command lines on which the code meets the reference (invariants must hold)
                     \* "defect": the remaining ones (the model exhibits the recorded defects)  "all": both
-          MaxPk     \* longest PACKAGE list
+          MaxPk,    \* longest PACKAGE list
+          Rich      \* TRUE: the larger option products of the thorough tier
 
 Tok == {"pa", "pb", "pc", "pd", "pe", "pi", "ps", "pm", "pt", "px", "here", "nf", "empty", "pa.sub", "bi", "bad", "syn"}
 TopOf(t) == IF t = "pa.sub" THEN "pa" ELSE t          \* key in the modules collection
@@ -63,12 +64,14 @@ JobOf(n) ==
                                "searches", {"none", "src", "alt", "src.alt", "alt.src"}), "ys", BOOLEAN), "insps", {"default", "X"})
     [] n = "insp" ->      With(With(With(Default, "pks", SeqsUpTo({"pa", "bad", "bi", "nf", "syn", "pb"}, MaxPk)), "insps", {"default", "X", "x", "Xx"}), "rs", BOOLEAN)
     [] n = "placement" -> With(With(With(With(With(With(Default, "pks", SeqsUpTo({"pa", "pb", "pe", "nf"}, MaxPk)),
-                               "outs", {"stdout", "file", "tmpl", "escaped", "badfield", "badbrace"}), "fulls", BOOLEAN), "rs", BOOLEAN), "exts", {"unset", "U"}),
+                               "outs", {"stdout", "file", "tmpl", "escaped", "badfield", "badbrace"}), "fulls", IF Rich THEN BOOLEAN ELSE {FALSE}), "rs", BOOLEAN), "exts", {"unset", "U"}),
                                "es", {"none", "missing"})
     [] n = "options" ->   With(With(With(With(With(With(With(With(Default, "pks", {<<"pa">>, <<"pa", "pb">>}), "fulls", BOOLEAN), "docs", {"none", "google", "numpy", "sphinx"}),
-                               "dopts", {"none", "ok"}), "es", {"none", "file", "cls", "opts", "builtin", "two"}), "Bs", BOOLEAN), "insps", {"default", "x"}), "outs", {"stdout", "tmpl"})
+                               "dopts", {"none", "ok"}), "es", {"none", "file", "cls", "opts", "builtin", "two"}), "Bs", BOOLEAN),
+                               "insps", IF Rich THEN {"default", "x"} ELSE {"default"}), "outs", IF Rich THEN {"stdout", "tmpl"} ELSE {"stdout"})
+    [] n = "options2" ->  With(With(With(With(With(With(Default, "fulls", BOOLEAN), "docs", {"none", "google"}), "es", {"none", "file"}), "Bs", BOOLEAN), "insps", {"x"}), "outs", {"stdout", "tmpl", "file"})
     [] n = "logging" ->   With(With(With(With(With(Default, "pks", SeqsUpTo({"pa", "nf", "empty", "pe"}, MaxPk)), "Ls", {"unset", "debug", "INFO", "Warning", "ERROR", "CRITICAL"}),
-                               "Ss", BOOLEAN), "rs", BOOLEAN), "insps", {"default", "X"})
+                               "Ss", BOOLEAN), "rs", BOOLEAN), "insps", IF Rich THEN {"default", "X"} ELSE {"default"})
     [] n = "usage" ->     With(With(With(With(With(With(Default, "globs", {"none", "help", "version", "debuginfo", "nocmd", "unknownopt", "nopkgs", "subhelp", "badcmd"}),
                                "docs", {"none", "bad"}), "dopts", {"none", "bad"}), "Ls", {"unset", "bad"}), "outs", {"stdout", "file"}), "pks", {<<"pa">>, <<"nf">>})
     [] OTHER -> Default
@@ -248,6 +251,12 @@ I_NoEscape == Done => st.status # "exc"                      \* (E2) main() retu
 I_Placement == Done => writes = ref.writes                   \* (O1) stdout | one file | one file per package, exactly the loaded packages
 I_Collection == (Done /\ st.status = "return" /\ a.e # "missing") => Range(coll) = ref.coll   \* (O2) what is dumped = requested + side-loaded
 I_ErrorsLogged == Done => ErrorToks = ref.errors             \* (L2) one ERROR record per failed package, in order, none otherwise
+\* the same clauses restricted to the clean domain, for runs over both domains at once (Domain = "all")
+Q_ExitStatus == Defective \/ I_ExitStatus
+Q_NoEscape == Defective \/ I_NoEscape
+Q_Placement == Defective \/ I_Placement
+Q_Collection == Defective \/ I_Collection
+Q_ErrorsLogged == Defective \/ I_ErrorsLogged
 I_Types == /\ pc \in {"parse", "options", "extensions", "load", "resolve", "output", "stats", "judge", "done"}
            /\ \A k \in 1..Len(coll) : \A m \in 1..Len(coll) : (coll[k] = coll[m]) => k = m          \* a dict: no duplicate keys
 
